@@ -116,6 +116,23 @@ class Shape(str, Enum):
 
 class CodeGenerator(abc.ABC):
     variable_prefix = ""
+    # Names the generated functions use for themselves. A state, parameter or
+    # expression with one of these names would silently capture (or be captured by) them
+    reserved_names: typing.FrozenSet[str] = frozenset(
+        {
+            "states",
+            "parameters",
+            "values",
+            "shape",
+            "dt",
+            "t",
+            "time",
+            "missing_variables",
+            "numpy",
+            "jax",
+            "len",
+        }
+    )
 
     def __init__(
         self,
@@ -127,12 +144,33 @@ class CodeGenerator(abc.ABC):
         self.remove_unused = remove_unused
         self._missing_variables = ode.missing_variables
         self._shape = shape
+        self._check_names()
 
         if remove_unused:
             self.deps = self.ode.dependents()
             self._condition = lambda x: x in self.deps
         else:
             self._condition = lambda x: True
+
+    def _check_names(self) -> None:
+        """Make sure that no name in the model collides with a name
+        that the generated code uses for itself"""
+        from ..exceptions import GotranxError
+
+        names = {
+            atom.name
+            for atom in self.ode.states
+            + self.ode.parameters
+            + self.ode.intermediates
+            + self.ode.state_derivatives
+        }
+        helpers = {f"{d.name}_linearized" for d in self.ode.state_derivatives}
+        clashes = names & (self.reserved_names | helpers)
+        if clashes:
+            raise GotranxError(
+                f"The names {sorted(clashes)} are used by the generated code itself. "
+                "Please rename them in the model."
+            )
 
     def _formatter(self, code: str) -> str:
         """Alternative formatter that takes a code snippet
